@@ -240,7 +240,7 @@ def enc_lr_history(lenc: LEnc, hist):
     return out
 
 
-def eval_layer_histories(nodes, edges, hists, mode="direct"):
+def eval_layer_histories(nodes, edges, hists, mode="direct", limit=None):
     """-> list of (impl outcome, model outcome) for LayerRule histories on one graph."""
     enc = rules.Enc()
     if mode == "scan":
@@ -248,9 +248,9 @@ def eval_layer_histories(nodes, edges, hists, mode="direct"):
         obs = rules.observe(arch, nodes, edges)
         g = enc.graph_direct(*obs)
     else:
-        arch = rules.make_arch_direct(nodes, edges)
-        obs = (list(nodes), list(edges))
-        g = enc.graph_built(nodes, edges)
+        arch = rules.make_arch_direct(nodes, edges, limit)
+        obs = rules.observe(arch, nodes, edges) if limit is not None else (list(nodes), list(edges))
+        g = enc.graph_built(nodes, edges, limit)
     lenc = LEnc(enc)
     wire_h = [enc_lr_history(lenc, h) for h in hists]
     rt = rules.regex_table(enc, lenc.pats, list(arch.modules))
